@@ -7,6 +7,7 @@ import (
 	"go/types"
 	"os"
 	"path/filepath"
+	"regexp"
 	"sort"
 	"strings"
 	"sync"
@@ -47,6 +48,20 @@ type Config struct {
 	InitPkgs        []string // packages whose init is run eagerly (lenient)
 	Trace           bool
 	NoPOR           bool
+	// KnownSigs: open known findings that are recognised by a signature: regular expressions
+	// over the parked goroutines ("<function>:<op>") and/or the failure detail
+	KnownSigs []KnownSig
+}
+
+type KnownSig struct {
+	ID      string
+	Blocked []*regexp.Regexp
+	Detail  *regexp.Regexp
+	Kinds   map[string]bool
+	// IDs: if non-empty, the failure id must start with one of these (deadlocks: "deadlock")
+	IDs []string
+	// Requires: region ids (vKnown) that must all be active on the failing path
+	Requires []string
 }
 
 type visitedShard struct {
@@ -134,7 +149,7 @@ func NewEngine(cfg Config) (*Engine, error) {
 		funcsSeen:    map[*ssa.Function]bool{},
 		live:         newLiveness(),
 	}
-	e.res = &Results{KnownHits: map[string][]*Failure{}, Reach: map[string]int{}, Funcs: map[string]bool{}, failKeys: map[string]bool{}}
+	e.res = &Results{KnownIDs: map[string]map[string]int{}, KnownHits: map[string][]*Failure{}, Reach: map[string]int{}, Funcs: map[string]bool{}, failKeys: map[string]bool{}}
 	e.visited = make([]visitedShard, 64)
 	for i := range e.visited {
 		e.visited[i].m = map[[2]uint64]visitedEntry{}
